@@ -124,6 +124,11 @@ class EngineBase:
                 if not self.static_subclass(a, b) and not self.static_subclass(b, a):
                     ax.append(z3.ForAll([c], z3.Not(z3.And(subclass(c, cls_const(a)), subclass(c, cls_const(b)))),
                                         patterns=[z3.MultiPattern(subclass(c, cls_const(a)), subclass(c, cls_const(b)))]))
+        for (a, b, why) in getattr(self.reg, "disjoint", []):
+            if a in _cls_consts and b in _cls_consts:
+                self.assumptions_used.add("no class derives from both %s and %s (%s)" % (a, b, why))
+                ax.append(z3.ForAll([c], z3.Not(z3.And(subclass(c, cls_const(a)), subclass(c, cls_const(b)))),
+                                    patterns=[z3.MultiPattern(subclass(c, cls_const(a)), subclass(c, cls_const(b)))]))
         ax.append(cls_of(NULL) == cls_const("NoneType"))
         xx = z3.Const("x!cls", RefS)
         ax.append(z3.ForAll([xx], cls_of(xx) != NULL, patterns=[cls_of(xx)]))
